@@ -76,6 +76,9 @@ pub struct Config {
     /// R20: closure ordinals (source pre-order, counted before any other closure rewrite) that are the argument of
     /// `Option::map` / `Option::unwrap_or_else`; the call is replaced by the `match` that defines it in core
     pub opt_closures: BTreeSet<u64>,
+    /// R22: names of `&mut` parameters / bindings that the function never writes through: their type becomes `&T`, `&mut name`
+    /// becomes `&name`, and `as_mut` / `iter_mut` become `as_ref` / `iter` (rustc rejects the result if a write remains)
+    pub demote_mut: Vec<String>,
 }
 
 fn strs(v: &Value) -> Vec<String> {
@@ -127,6 +130,7 @@ impl Config {
                     c.method_to_fn.insert(k.clone(), v.as_str().unwrap_or("").to_string());
                 }
             }
+            c.demote_mut.extend(strs(&src["demote_mut"]));
             c.add_derives.extend(strs(&src["add_derives"]));
             c.const_calls.extend(strs(&src["const_calls"]));
             c.vec_fns.extend(strs(&src["vec_fns"]));
@@ -425,6 +429,52 @@ impl<'a> MacroPass<'a> {
                     None
                 }
             }
+        }
+    }
+}
+
+/// R22: see Config::demote_mut
+struct DemoteMutPass<'a> {
+    names: &'a Vec<String>,
+    counts: &'a mut Counts,
+}
+
+fn root_ident(e: &syn::Expr) -> Option<String> {
+    match e {
+        syn::Expr::Path(p) => p.path.get_ident().map(|i| i.to_string()),
+        syn::Expr::Field(f) => root_ident(&f.base),
+        syn::Expr::Index(i) => root_ident(&i.expr),
+        syn::Expr::MethodCall(m) => root_ident(&m.receiver),
+        syn::Expr::Paren(p) => root_ident(&p.expr),
+        syn::Expr::Unary(u) => root_ident(&u.expr),
+        syn::Expr::Reference(r) => root_ident(&r.expr),
+        _ => None,
+    }
+}
+
+impl<'a> VisitMut for DemoteMutPass<'a> {
+    fn visit_expr_mut(&mut self, e: &mut syn::Expr) {
+        visit_mut::visit_expr_mut(self, e);
+        match e {
+            syn::Expr::Reference(r) if r.mutability.is_some() => {
+                if let Some(n) = root_ident(&r.expr) {
+                    if self.names.iter().any(|x| *x == n) {
+                        r.mutability = None;
+                        bump(self.counts, "R22.demote_mut_borrow");
+                    }
+                }
+            }
+            syn::Expr::MethodCall(mc) => {
+                let m = mc.method.to_string();
+                if m == "as_mut" && mc.args.is_empty() {
+                    mc.method = syn::Ident::new("as_ref", mc.method.span());
+                    bump(self.counts, "R22.as_mut_to_as_ref");
+                } else if m == "iter_mut" && mc.args.is_empty() {
+                    mc.method = syn::Ident::new("iter", mc.method.span());
+                    bump(self.counts, "R22.iter_mut_to_iter");
+                }
+            }
+            _ => {}
         }
     }
 }
@@ -2179,6 +2229,24 @@ pub fn apply_to_fn(
             let tree: syn::ItemUse = syn::parse_str(&format!("use {};", u)).map_err(|e| format!("bad recipe: inject_use: {}", e))?;
             f.block.stmts.insert(k, syn::Stmt::Item(syn::Item::Use(tree)));
         }
+    }
+    // R22
+    if !cfg.demote_mut.is_empty() {
+        for arg in f.sig.inputs.iter_mut() {
+            if let syn::FnArg::Typed(pt) = arg {
+                let name = match &*pt.pat { syn::Pat::Ident(pi) => pi.ident.to_string(), _ => String::new() };
+                if cfg.demote_mut.iter().any(|n| *n == name) {
+                    if let syn::Type::Reference(r) = &mut *pt.ty {
+                        if r.mutability.is_some() {
+                            r.mutability = None;
+                            bump(counts, "R22.demote_mut_param");
+                        }
+                    }
+                }
+            }
+        }
+        let mut p = DemoteMutPass { names: &cfg.demote_mut, counts };
+        p.visit_block_mut(&mut f.block);
     }
     // R1 / R6
     {
